@@ -91,6 +91,26 @@ theorem outputTagsL_no_script (A : CAtoms) : (ks : List Node) → ∀ t ∈ outp
     · exact outputTagsL_no_script A ks x h
 end
 
+/-! ### repeated attributes (`domutil.RemoveDuplicateAttributes`)
+
+The parser keeps every copy of a repeated attribute; `dom.GetAttribute` / `dom.SetAttribute` only
+see the first.  The converter drops the later copies from its clone before walking it, so every
+function below runs on elements whose attribute names are distinct. -/
+
+def dedupAttrs : List Attr → List String → List Attr
+  | [], _ => []
+  | a :: rest, seen => if seen.contains a.key then dedupAttrs rest seen else a :: dedupAttrs rest (a.key :: seen)
+
+mutual
+def dedupNode : Node → Node
+  | .text i d => .text i d
+  | .other i k => .other i k
+  | .elem i t attrs ks => .elem i t (dedupAttrs attrs []) (dedupNodeL ks)
+def dedupNodeL : List Node → List Node
+  | [] => []
+  | k :: ks => dedupNode k :: dedupNodeL ks
+end
+
 /-! ### attribute stripping (`domutil.StripAttributes`) over the generated tables -/
 
 def stripAlwaysKeys : List String :=
